@@ -393,6 +393,14 @@ def r_identity_shortcuts(c):
                     f"`{m.frag(t, 70)}` hands the input back unchanged as soon as SOME component "
                     "is unchanged: the components that do change are silently dropped (an inlined "
                     "producer read through a one-axis slice or roll loses its index map)")
+            filt = [f for g in t.args[0].generators for f in g.ifs]
+            c.check(not filt, "R01-TABLES", qn,
+                    f"identity-shortcut-tests-every-component:{m.frag(t, 50)}", m.loc(mi, i),
+                    f"`{m.frag(t, 90)}`: the filter `if {m.frag(filt[0], 40) if filt else ''}` "
+                    "exempts components from the test; a component that is filtered out is not "
+                    "known to be unchanged, yet the input is handed back as it is (an index "
+                    "that is an expression rather than a variable is dropped by the identity "
+                    "test of a substitution)")
     # the shared helper of the copy mappers quantifies over all entries as well
     ei = m.func("pytato.array._entries_are_identical")
     n += 1
@@ -481,7 +489,7 @@ SPEC = Spec(
         "over a DictOfNamedArrays in supplied order in the code-generation "
         "modules; outputs are computed in a keyed topological order; operands are "
         "generated in sorted name order. "
-        "R01-TABLES also: matmul writes each operand's batch axes as a SUFFIX of the pool of stacking indices (NumPy aligns shapes at the trailing end); wherever the pair of bounds of a reduction variable is taken apart (loop domain of the kernel, scalar-expression mappers), both halves are used."),
+        "R01-TABLES also: matmul writes each operand's batch axes as a SUFFIX of the pool of stacking indices (NumPy aligns shapes at the trailing end); wherever the pair of bounds of a reduction variable is taken apart (loop domain of the kernel, scalar-expression mappers), both halves are used; the all(..) of an identity shortcut has no filter (a filtered-out component is not known to be unchanged)."),
     not_decided=(
         "That any generated kernel computes NumPy's values, has the declared dtype, "
         "schedules or compiles: that needs executing generated code (and an OpenCL "
